@@ -455,9 +455,11 @@ func init() {
 	})
 }
 
+const accStringIdx = 2
+
 func c13Obligs(tier string) []Oblig {
 	var obs []Oblig
-	ops := []int{0, 1, 3, 5, 16}
+	ops := []int{0, 1, 3, 16}
 	if tier == "thorough" {
 		ops = []int{0, 1, 2, 3, 4, 5, 8, 15, 16, 18}
 	}
@@ -474,8 +476,12 @@ func c13Obligs(tier string) []Oblig {
 			// accessor between two 2-byte string writes, and in a 3-op script
 			for _, a := range []int{0, 1} {
 				for _, b := range []int{0, 1} {
-					obs = append(obs, Oblig{Harness: "H_c13", Args: []int{variant, acc, 1, 2, a, b}})
-					obs = append(obs, Oblig{Harness: "H_c13", Args: []int{variant, acc, 2, 1, a, b, 1}})
+					if tier == "thorough" || (acc == 3 && a != b) {
+						obs = append(obs, Oblig{Harness: "H_c13", Args: []int{variant, acc, 1, 2, a, b}})
+					}
+					if tier == "thorough" || acc == 0 || acc == 3 {
+						obs = append(obs, Oblig{Harness: "H_c13", Args: []int{variant, acc, 2, 1, a, b, 1}})
+					}
 				}
 			}
 		}
@@ -781,6 +787,10 @@ func c06Obligs(tier string) []Oblig {
 
 func c05Obligs(tier string) []Oblig {
 	var obs []Oblig
+	n := 2
+	if tier == "thorough" {
+		n = 3
+	}
 	for l1 := 0; l1 < 9; l1++ {
 		for _, l2 := range []int{0, 2, 3, 5, 6} {
 			for _, l3 := range []int{0, 1, 4} {
@@ -792,12 +802,12 @@ func c05Obligs(tier string) []Oblig {
 					for _, fi := range fis {
 						reg := 0
 						if l1 == 5 || l2 == 5 {
-							obs = append(obs, Oblig{Harness: "H_c05", Args: []int{l1, l2, l3, shape, fi, 1, 1}})
+							obs = append(obs, Oblig{Harness: "H_c05", Args: []int{l1, l2, l3, shape, fi, n, 1}})
 						}
 						if tier != "thorough" && shape > 0 && l3 != 0 {
 							continue
 						}
-						obs = append(obs, Oblig{Harness: "H_c05", Args: []int{l1, l2, l3, shape, fi, 1, reg}})
+						obs = append(obs, Oblig{Harness: "H_c05", Args: []int{l1, l2, l3, shape, fi, n, reg}})
 					}
 				}
 			}
@@ -852,9 +862,9 @@ func init() {
 		map[string]interface{}{"wrapper_nestings": "all 12 up to depth 3", "value_kinds": 21, "directives": 8, "scripts": "1-2 calls from 9 (formatter discovering the SafePrinter, and SafeFormatter)", "leaf": "1 symbolic valid-UTF-8 non-LF byte"},
 		[]string{"unsafe renderings are LF-free (LF handling is C03/C09)"}, stubs, []string{"longer scripts"})
 	simpleSpec("C05", c05Obligs, []string{"symbolic-leaves"},
-		map[string]interface{}{"leaves": "3 per call from 9 kinds (unsafe string/int, SafeString, Safe(), SafeInt, registered type, safe-emitting SafeFormatter, SafeValue type)", "shapes": "top level, []interface{}, struct with interface fields, map, Sprint", "formats": 5, "registry": "empty / one registered type", "leaf_bytes": "1 symbolic byte each for the unsafe and the safe payload"},
+		map[string]interface{}{"leaves": "3 per call from 9 kinds (unsafe string/int, SafeString, Safe(), SafeInt, registered type, safe-emitting SafeFormatter, SafeValue type)", "shapes": "top level, []interface{}, struct with interface fields, map, Sprint", "formats": 5, "registry": "empty / one registered type", "leaf_bytes": "2 (3 thorough) symbolic bytes each for the unsafe and the safe payload"},
 		[]string{"unsafe payloads are LF-free and valid UTF-8", "the blanked operand is rendered as one leaf"}, stubs, []string{"bad verbs (C04)", "longer payloads"})
-	register(&CheckSpec{ID: "C12", Props: []string{"C12"}, Obligs: c12Obligs, Goals: []string{"ran"},
+	register(&CheckSpec{ID: "C12", Props: []string{"C12"}, Obligs: c12Obligs, Goals: []string{"ran", "probe-ran-on-recycled-printer"},
 		Bounds: func(tier string) map[string]interface{} {
 			return map[string]interface{}{"histories": "1 (2 thorough) prior calls from 16 dirtying kinds", "probes": 8, "pool": "adversarial sync.Pool model: Get returns any freed printer or a new one (all choices explored)", "payload": "1 symbolic byte in probe and history"}
 		},
